@@ -553,9 +553,12 @@ def vals_close(a: Any, b: Any, tol: float = 1e-9) -> bool:
     return bool(a == b)
 
 
-def direct_op(op: Dict[str, Any], col: List[Any]) -> Optional[List[Any]]:
-    """plain-Python semantics of the simplest operations (None = not covered by the direct oracle)"""
+def direct_op(op: Dict[str, Any], col: List[Any], exact_median: bool = True) -> Optional[List[Any]]:
+    """plain-Python semantics of the simplest operations (None = not covered by the direct oracle).
+    `exact_median=False`: the framework's median is approximate / lower-middle (PyArrow t-digest; a C19 matter)"""
     g, p = op["g"], op["p"]
+    if p and p[0] == "median" and not exact_median:
+        return None
     xs = [v for v in col if v is not None]
     n = len(col)
     if g == "AggregatedFeatureGroup":
@@ -1290,8 +1293,11 @@ def run_json_suite(ctx: Ctx, G: Groups, K: int) -> None:
                           finding_class=f"schema-invalid-config-accepted:{viol}")  # fmt: skip
         # oracle 2: a valid document loads to the documented Feature objects
         if valid and raised is None:
-            exp = [documented_feature(it) for it in doc]
-            if canon(impl) != canon(exp):
+            try:
+                exp: Any = [documented_feature(it) for it in doc]
+            except Exception:
+                exp = "the documentation gives this document no meaning (it should have been rejected)"
+            if exp is None or isinstance(exp, str) or canon(impl) != canon(exp):
                 ctx.violation("json", {"doc": doc}, f"valid document {text[:160]} loads to {cjson(canon(impl))[:200]}, documented {cjson(canon(exp))[:200]}", impl, exp)
         if valid and raised is not None and not documented_rejection(doc):
             ctx.violation("json", {"doc": doc}, f"valid document {text[:200]} is rejected: {raised!r}"[:300], impl, "loads")
@@ -1490,7 +1496,7 @@ def run_e2e_suite(ctx: Ctx, G: Groups, K: int) -> None:
         if all(op["g"] in ("AggregatedFeatureGroup", "MissingValueFeatureGroup", "TimeWindowFeatureGroup") for op in ch["ops"]):
             cur2: Optional[List[Any]] = cols[ch["src"][0]]
             for op in ch["ops"]:
-                cur2 = direct_op(op, cur2) if cur2 is not None else None
+                cur2 = direct_op(op, cur2, exact_median=(fwname == "PandasDataFrame")) if cur2 is not None else None
             if cur2 is not None:
                 ctx.tag("e2e_direct_oracle", "evaluated")
                 if not vals_close(cur2, ref_vals, 1e-9):
@@ -1560,7 +1566,7 @@ def run_e2e_suite(ctx: Ctx, G: Groups, K: int) -> None:
         want = direct_op(aop, [v + 1 for v in mcols["m"]])
         if not (r_n["ok"] and vals_close(r_n["cols"].get(nmt), want)):
             ctx.violation("e2e_grammar", {"name": nmt}, f"{nmt!r} (sub-column 1 of m, then {t}) gives {r_n.get('kind') or r_n.get('cols')}; the options form gives {r_o.get('cols')}, direct computation {want}",
-                          r_n, want, finding_class=TILDE_CLASS)  # fmt: skip
+                          r_n, want, finding_class=TILDE_CLASS if r_n.get("kind") == "multiple" else None)  # fmt: skip
         if r_o["ok"] and want is not None and not vals_close(r_o["cols"].get("agg"), want):
             ctx.violation("e2e_grammar", {"options": "in_features=m~1", "t": t}, f"options form on sub-column m~1 gives {r_o['cols'].get('agg')}, direct computation {want}", r_o, want)
         # the whole multi-column feature: row-wise aggregation across m~0..m~2 in every notation
